@@ -1,8 +1,259 @@
-"""Concurrent properties (shuttle-based instrumented copy + Lean LTS co-simulation) — see conc_*.py"""
+"""Concurrent properties: scenarios run on the shuttle-instrumented copy of /repo under seeded schedules
+(harness/conc); every distinct execution is (a) co-simulated by the property's Lean LTS where one
+exists and (b) judged by the property's oracle on the recorded events."""
+import os, re, subprocess, time, json, random, concurrent.futures as cf
+from . import run, proof
+
+RXH_CONC = os.path.join(run.BUILD, "target-conc", "debug", "rxh-conc")
+
+
+def build():
+    run.build_lean(["rxmodel"])
+    run.build_harness("conc")
+
+
+def run_scenarios(lines, seed, iters, strategy="mixed", jobs=16, timeout=3000):
+    """returns list of output lines (all scenarios)"""
+    if not lines:
+        return []
+    jobs = max(1, min(jobs, len(lines)))
+    chunks = [lines[i::jobs] for i in range(jobs)]
+    def work(chunk):
+        try:
+            p = subprocess.run([RXH_CONC, str(seed), str(iters), strategy], input="\n".join(chunk) + "\n", stdout=subprocess.PIPE,
+                               stderr=subprocess.DEVNULL, text=True, timeout=timeout)
+            return p.stdout.split("\n")
+        except subprocess.TimeoutExpired:
+            return ["%s | seed=0 n=0 strat=%s | out=timeout  | " % (c.split()[1], strategy) for c in chunk]
+    with cf.ThreadPoolExecutor(max_workers=jobs) as ex:
+        res = list(ex.map(work, chunks))
+    return [l for r in res for l in r if l.strip()]
+
+
+def cosim(model, lines, jobs=8):
+    execs = [l for l in lines if l.count(" | ") >= 3]
+    if not execs:
+        return {}
+    out = run.run_lines(run.RXMODEL, ["cosim", model], execs, jobs)
+    res = {}
+    for l, o in zip(execs, out):
+        res[l] = o
+    return res
+
+
+def parse_exec(line):
+    parts = line.split(" | ")
+    sid = parts[0]
+    meta = dict(kv.split("=", 1) for kv in parts[1].split() if "=" in kv)
+    status = parts[2].split()[0].split("=", 1)[1] if parts[2].startswith("out=") else "?"
+    detail = parts[2][len("out=" + status):].strip()
+    payload = " | ".join(parts[3:])
+    return sid, meta, status, detail, payload
+
+
+# ---- scenarios ----------------------------------------------------------------------------------
+
+def scen_obs(rng, n):
+    out = []
+    base = [
+        [["(next 1)", "complete"], ["(error 5)"], ["unsubscribe", "isSubscribed"]],
+        [["(error 5)"], ["complete"]],
+        [["(error 5)"], ["complete"], ["(next 1)", "(next 2)"]],
+        [["(next 1)", "(next 2)", "complete"], ["unsubscribe"]],
+        [["complete", "(next 3)"], ["(error 6)", "(next 4)"], ["isSubscribed", "isSubscribed"]],
+        [["unsubscribe"], ["unsubscribe"], ["(next 1)"]],
+        [["(next 1)"], ["(next 2)"], ["complete", "isSubscribed"]],
+    ]
+    ops = ["(next 1)", "(next 2)", "(error 5)", "complete", "unsubscribe", "isSubscribed"]
+    for i in range(n):
+        nt = rng.choice([2, 2, 3, 3, 4])
+        base.append([[rng.choice(ops) for _ in range(rng.randint(1, 3))] for _ in range(nt)])
+    for i, ths in enumerate(base):
+        out.append("(conc C19-obs-%d (obs %s))" % (i, " ".join("(thread %s)" % " ".join(t) for t in ths)))
+    return out
+
+
+def scen_tovec(rng, n):
+    scripts = ["c", "e3", "1 c", "1 2 c", "1 2 3 c", "7 e3", "1 2 e4", "1", "", "1 2"]
+    for _ in range(n):
+        items = [str(rng.randint(0, 3)) for _ in range(rng.randint(0, 4))]
+        end = rng.choice(["c", "c", "e5", ""])
+        scripts.append(" ".join(items + ([end] if end else [])))
+    return ["(conc C18-tovec-%d (tovec %s))" % (i, s) for i, s in enumerate(dict.fromkeys(scripts))]
+
+
+# ---- oracles on recorded executions ----------------------------------------------------------------
+
+def oracle_obs(payload):
+    """C19 + concurrent C05 on a label trace of the Observer scenario"""
+    labels = payload.split(" ; ", 1)[1].split(";") if " ; " in payload else []
+    term_starts = 0
+    term_returned_at = None
+    unsub_returned_at = None
+    call_start = {}     # tid -> index of its current call start, op
+    for i, l in enumerate(labels):
+        t = l.split()
+        if len(t) < 2:
+            continue
+        tid, kind = t[0], t[1]
+        if kind == "callStart":
+            call_start[tid] = (i, t[2])
+        elif kind == "cbStart":
+            cs = call_start.get(tid, (0, "?"))[0]
+            if t[2] in ("error", "complete"):
+                term_starts += 1
+                if term_starts > 1:
+                    return "two terminal callbacks started"
+                if unsub_returned_at is not None and cs > unsub_returned_at:
+                    return "terminal callback for a call that started after unsubscribe returned"
+            if t[2] == "next":
+                if term_returned_at is not None and cs > term_returned_at:
+                    return "next callback for a call that started after the terminal callback returned"
+                if unsub_returned_at is not None and cs > unsub_returned_at:
+                    return "next callback for a call that started after unsubscribe returned"
+        elif kind == "cbReturn" and t[2] in ("error", "complete"):
+            term_returned_at = i
+        elif kind == "callReturn":
+            op = call_start.get(tid, (0, "?"))[1]
+            if op == "unsubscribe" and unsub_returned_at is None:
+                unsub_returned_at = i
+    return None
+
+
+def oracle_tovec(payload):
+    m = re.match(r"script=(.*?) ; (result .*?|none) ; ", payload + " ")
+    if not m:
+        return "malformed record"
+    script, res = m.group(1).split(), m.group(2)
+    items = [x for x in script if re.fullmatch(r"-?\d+", x)]
+    term = script[-1] if script and not re.fullmatch(r"-?\d+", script[-1]) else None
+    if term == "c":
+        want = "Ok[%s]" % ",".join(items)
+    elif term and term.startswith("e"):
+        want = "Err(%s)" % term[1:]
+    else:
+        want = None
+    if want is None:
+        if res.startswith("result") and "GAVE-UP" not in res:
+            return "future became ready although the source never terminated: " + res
+        return None
+    if not res.startswith("result " + want + " "):
+        return "future yielded %s, expected %s" % (res, want)
+    return None
+
+
+CONC = {
+    "C19": dict(model="obs", scen=scen_obs, oracle=oracle_obs, corr="Conc.Observer (lean/RxVerif/Conc/Observer.lean) vs src/observer.rs + src/internals/function_wrapper.rs"),
+    "C18": dict(model="tovec", scen=scen_tovec, oracle=oracle_tovec, corr="Conc.ToVec (lean/RxVerif/Conc/ToVec.lean) vs src/operators/to_vec.rs"),
+}
+
+
 def run_conc(prop, tier, seed, jobs, write_evidence, write_replay, load_known):
-    print("property %s is not wired yet" % prop)
-    return 2
+    t0 = time.time()
+    cfg = CONC.get(prop)
+    if cfg is None:
+        print("property %s has no check" % prop)
+        return 2
+    pr = proof.check(prop, tier)
+    notes = []
+    violations = []
+    if not pr.ok:
+        notes.append("proof step failed: " + pr.error)
+    try:
+        build()
+    except run.BuildError as e:
+        path = write_replay(prop, {"broken": "correspondence build: " + e.what, "log": e.log[-4000:]})
+        print("VIOLATION property=%s replay=%s no-failing-input-found" % (prop, path))
+        write_evidence(prop, tier, seed, pr, 0, 0, [], time.time() - t0, 1, notes + ["build failed: " + e.what])
+        return 1
+    rng = random.Random(seed * 7919 + int(prop[1:]))
+    thorough = tier == "thorough"
+    scen = cfg["scen"](rng, 60 if thorough else 12)
+    iters = 5000 if thorough else 300
+    lines = run_scenarios(scen, seed, iters, "mixed", jobs)
+    execs = [l for l in lines if l.count(" | ") >= 3]
+    done = [l for l in lines if " | done " in l]
+    total_schedules = sum(int(re.search(r"iterations=(\d+)", l).group(1)) for l in done)
+    co = cosim(cfg["model"], execs, jobs) if cfg.get("model") else {}
+    by_id = {s.split()[1]: s for s in scen}
+    oracle_fail, rejects, bad_status = [], [], []
+    steps = 0
+    for l in execs:
+        sid, meta, status, detail, payload = parse_exec(l)
+        if status != "ok":
+            bad_status.append((l, "execution ended with %s %s" % (status, detail)))
+            continue
+        msg = cfg["oracle"](payload)
+        if msg:
+            oracle_fail.append((l, msg))
+        c = co.get(l, "")
+        if " REJECT " in c:
+            rejects.append((l, c))
+        else:
+            m = re.search(r"steps=(\d+)", c)
+            steps += int(m.group(1)) if m else payload.count(";") + 1
+    known = [k for k in load_known() if k["property"] == prop]
+    def report(l, what, suffix=""):
+        sid, meta, status, detail, payload = parse_exec(l)
+        path = write_replay(prop, {"scenario": by_id.get(sid, sid), "seed": int(meta.get("seed", 0)), "strategy": meta.get("strat", "random"),
+                                   "what": what, "record": l[:6000]})
+        violations.append((path, suffix))
+    seen_what = set()
+    for l, msg in (bad_status + oracle_fail)[:50]:
+        key = re.sub(r"\d+", "#", msg)[:80]
+        if key in seen_what:
+            continue
+        seen_what.add(key)
+        k = next((k for k in known if k.get("clause") and k["clause"] in msg), None)
+        if k:
+            print("KNOWN-FINDING: property=%s %s" % (prop, k["what"]))
+            continue
+        report(l, msg)
+    if rejects and not violations:
+        l, c = rejects[0]
+        report(l, "correspondence %s no longer checks: %s" % (cfg["corr"], c), " no-failing-input-found")
+    if not pr.ok and not violations:
+        path = write_replay(prop, {"broken": "theorem / audit: " + pr.error})
+        violations.append((path, " no-failing-input-found"))
+    for path, suffix in violations:
+        print("VIOLATION property=%s replay=%s%s" % (prop, path, suffix))
+    nontrivial = len({parse_exec(l)[4] for l in execs if parse_exec(l)[2] == "ok"})
+    write_evidence(prop, tier, seed, pr, total_schedules, nontrivial, scen[:4] + [execs[0][:400]] if execs else scen[:4],
+                   time.time() - t0, len(violations), notes,
+                   extra={"scenarios": len(scen), "schedules_explored": total_schedules, "distinct_executions": len(execs),
+                          "traces_validated_against_impl": len(execs) - len(rejects), "cosimulated_steps": steps,
+                          "cosimulation_rejects": len(rejects), "oracle_failures": len(oracle_fail), "abnormal_executions": len(bad_status),
+                          "rule_conc": "each scenario is executed under `iterations` seeded shuttle schedules (random and PCT); distinct = distinct "
+                                       "label trace; every distinct trace is replayed through the Lean LTS (`rxmodel cosim`) and judged by the oracle"})
+    print("%s %s: %d scenarios, %d schedules, %d distinct executions, %d co-simulation rejects, %d oracle failures, %d abnormal, %d violations, %.1fs" %
+          (prop, tier, len(scen), total_schedules, len(execs), len(rejects), len(oracle_fail), len(bad_status), len(violations), time.time() - t0))
+    return 1 if violations else 0
+
 
 def replay(prop, r, path):
-    print("no concurrent replay yet")
-    return 2
+    build()
+    sc = r.get("scenario")
+    if not sc:
+        print("replay names a broken obligation: %s" % r.get("broken"))
+        return 1
+    p = subprocess.run([RXH_CONC, "exact", str(r.get("seed", 0)), r.get("strategy", "random")], input=sc + "\n",
+                       stdout=subprocess.PIPE, text=True)
+    out = p.stdout
+    print(out[:3000])
+    cfg = CONC.get(prop)
+    bad = False
+    for l in out.split("\n"):
+        if l.count(" | ") >= 3:
+            sid, meta, status, detail, payload = parse_exec(l)
+            if status != "ok" or (cfg and cfg["oracle"](payload)):
+                bad = True
+            if cfg and cfg.get("model"):
+                c = cosim(cfg["model"], [l], 1).get(l, "")
+                print("co-simulation:", c[:400])
+                if " REJECT " in c:
+                    bad = True
+    if bad:
+        print("VIOLATION property=%s replay=%s" % (prop, path))
+        return 1
+    print("no longer fails")
+    return 0
